@@ -13,6 +13,16 @@ COMMON_NOTE = ("Trusted: Lean 4.33.0 kernel; axioms per theorem as printed by #p
 
 # property id -> dict(level, text, technique, note, design_ref)
 CLAIMED = {
+    "C11": dict(
+        level="proof",
+        text="Lean theorems for every JsStr operation on both encodings: op_agrees_with_units (each of 17 operations equals the same "
+             "operation on the plain code-unit array), rep_independent, eq/cmp/hash consistency, whitespace_tables_agree (all 256 "
+             "Latin-1 units), eqStr_correct, constructors_denote, derived_wf — for all strings of any length. The hand-written model "
+             "mirrors str.rs/lib.rs case split by case split and is tied by a correspondence run that builds real strings through six "
+             "constructors (exhaustive over short sequences of an adversarial alphabet, random to length 64).",
+        technique="Lean 4 refinement proofs (JsStr model -> code-unit arrays) + differential correspondence run against boa_string",
+        note="Modelled, not verified: unsafe allocation/vtable code of boa_string, std's UTF-16 routines.",
+    ),
     "C12": dict(
         level="proof",
         text="Lean theorems over ALL 2^32 int32s, ALL 2^64 double bit patterns and all 48-bit addresses (i32_roundtrip, float_roundtrip, "
